@@ -358,36 +358,32 @@ def _mangle(prog: Program, col: Collector, refs: Refs):
                   "a construction path returns the term without alpha-mangling it: user-chosen bound names stay in the term (capture / interference between binders)", rf.loc(r))
     # _alpha_mangle
     p = am.positional[0]
-    maps = [n for n in walk_no_nested(am.node) if isinstance(n, ast.Assign) and isinstance(n.value, ast.DictComp)]
-    if len(maps) != 1:
-        col.unresolved(f"{am.fq}::renaming map", "renaming map not a single dict comprehension", am.loc())
+    mb = _map_builder(am)
+    if mb is None:
+        col.unresolved(f"{am.fq}::renaming map", "renaming map is neither a dict comprehension nor a `m = {}; for ...: m[k] = v` loop", am.loc())
         return
-    m = maps[0]
-    mname = m.targets[0].id if isinstance(m.targets[0], ast.Name) else None
-    dc: ast.DictComp = m.value
-    g = dc.generators[0]
-    over_bound = len(dc.generators) == 1 and isinstance(g.iter, ast.Attribute) and g.iter.attr == "bound" and isinstance(g.iter.value, ast.Name) and g.iter.value.id == p
-    col.check(over_bound, f"{am.fq}::map domain", "the renaming map ranges over expr.bound", f"the renaming map ranges over `{norm(g.iter)}`, not over all of expr.bound", am.loc(m))
+    m, mname, it, tname, key, value, filters = mb
+    over_bound = isinstance(it, ast.Attribute) and it.attr == "bound" and isinstance(it.value, ast.Name) and it.value.id == p
+    col.check(over_bound, f"{am.fq}::map domain", "the renaming map ranges over expr.bound", f"the renaming map ranges over `{norm(it)}`, not over all of expr.bound", am.loc(m))
     marker = None
-    gens = [c for c in ast.walk(dc.value) if isinstance(c, ast.Call) and refs.resolve(c.func) == "funsor.interpreter.gensym"]
+    gens = [c for c in ast.walk(value) if isinstance(c, ast.Call) and refs.resolve(c.func) == "funsor.interpreter.gensym"]
     for c in gens:
         for s in ast.walk(c):
             if isinstance(s, ast.Constant) and isinstance(s.value, str):
                 marker = s.value
-    tname = g.target.id if isinstance(g.target, ast.Name) else None
-    fresh_ok = bool(gens) and isinstance(dc.key, ast.Name) and dc.key.id == tname and marker is not None and any(
+    fresh_ok = bool(gens) and isinstance(key, ast.Name) and key.id == tname and marker is not None and any(
         isinstance(s, ast.Name) and s.id == tname for c in gens for s in ast.walk(c))
     col.check(fresh_ok, f"{am.fq}::fresh names", f"each bound name maps to gensym(name + {marker!r})",
               "new names are not produced by gensym(<old name> + marker): they may collide with existing names", am.loc(m))
-    # filters: only "marker not in name"
+    # filters: only "marker not in name" (as a comprehension condition, an enclosing `if`, or a `continue` guard on the negation)
     filt_ok = True
-    for c in g.ifs:
-        t = c
-        ok = isinstance(t, ast.Compare) and len(t.ops) == 1 and isinstance(t.ops[0], ast.NotIn) and isinstance(t.left, ast.Constant) and t.left.value == marker \
-            and isinstance(t.comparators[0], ast.Name) and t.comparators[0].id == tname
+    for t, keep_when in filters:
+        ok = isinstance(t, ast.Compare) and len(t.ops) == 1 and isinstance(t.left, ast.Constant) and t.left.value == marker \
+            and isinstance(t.comparators[0], ast.Name) and t.comparators[0].id == tname \
+            and ((isinstance(t.ops[0], ast.NotIn) and keep_when) or (isinstance(t.ops[0], ast.In) and not keep_when))
         filt_ok = filt_ok and ok
     col.check(filt_ok, f"{am.fq}::filter", "the only names skipped are those that already carry the marker",
-              f"bound names are skipped by `{' and '.join(norm(c) for c in g.ifs)}`: some user-chosen binders are never renamed", am.loc(m))
+              f"bound names are skipped by `{' and '.join(('' if kw else 'not ') + norm(c) for c, kw in filters)}`: some user-chosen binders are never renamed", am.loc(m))
     # returns
     for r in [n for n in walk_no_nested(am.node) if isinstance(n, ast.Return)]:
         v = r.value
@@ -415,6 +411,51 @@ def _mangle(prog: Program, col: Collector, refs: Refs):
                       "the renamed term is not rebuilt as reflect.interpret(type(expr), *expr._alpha_convert(map))", am.loc(r))
         else:
             col.unresolved(construct, "unrecognised return form", am.loc(r))
+
+
+def _map_builder(am: Func):
+    """The statement that builds the renaming map, normalised to (stmt, map name, iterable, loop variable, key, value,
+    [(filter expression, keep-when-true)]).  Forms: a dict comprehension; `m = {}` + a for-loop storing m[k] = v under `if`s /
+    `if c: continue` guards."""
+    for n in walk_no_nested(am.node):
+        if isinstance(n, ast.Assign) and isinstance(n.value, ast.DictComp) and isinstance(n.targets[0], ast.Name):
+            dc = n.value
+            if len(dc.generators) != 1 or not isinstance(dc.generators[0].target, ast.Name):
+                return None
+            g = dc.generators[0]
+            return n, n.targets[0].id, g.iter, g.target.id, dc.key, dc.value, [(c, True) for c in g.ifs]
+    empties = {}
+    for n in walk_no_nested(am.node):
+        if isinstance(n, ast.Assign) and len(n.targets) == 1 and isinstance(n.targets[0], ast.Name):
+            v = n.value
+            if (isinstance(v, ast.Dict) and not v.keys) or (isinstance(v, ast.Call) and isinstance(v.func, ast.Name) and v.func.id in ("dict", "OrderedDict") and not v.args and not v.keywords):
+                empties[n.targets[0].id] = n
+    for lp in walk_no_nested(am.node):
+        if not (isinstance(lp, ast.For) and isinstance(lp.target, ast.Name) and not lp.orelse):
+            continue
+
+        def scan(stmts, filters):
+            found = None
+            filters = list(filters)
+            for st in stmts:
+                if isinstance(st, ast.If) and not st.orelse and len(st.body) == 1 and isinstance(st.body[0], ast.Continue):
+                    filters.append((st.test, False))
+                    continue
+                if isinstance(st, ast.If) and not st.orelse:
+                    r = scan(st.body, filters + [(st.test, True)])
+                    if r is not None:
+                        found = r
+                    continue
+                if isinstance(st, ast.Assign) and len(st.targets) == 1 and isinstance(st.targets[0], ast.Subscript) \
+                        and isinstance(st.targets[0].value, ast.Name) and st.targets[0].value.id in empties:
+                    found = (st.targets[0].value.id, st.targets[0].slice, st.value, filters)
+            return found
+
+        r = scan(lp.body, [])
+        if r is not None:
+            mname, key, value, filters = r
+            return lp, mname, lp.iter, lp.target.id, key, value, filters
+    return None
 
 
 def _substitute(prog: Program, col: Collector, refs: Refs):
@@ -496,3 +537,22 @@ def _marker(prog: Program, col: Collector, refs: Refs):
                     continue  # docstring
                 col.check(n.value == marker, f"{func_label(prog, mod, n)}::{norm(enclosing_stmt(mod, n))}", f"uses the marker {marker!r}",
                           f"marker literal {n.value!r} differs from the one _alpha_mangle writes ({marker!r}): renamed binders are not recognised / not un-mangled", mod.loc(n))
+    # sibling check: inside a function that uses the marker, every literal in the same syntactic role (argument of
+    # `.split(...)`, left operand of `in` / `not in` against a name) must be the marker itself
+    for f in prog.funcs.values():
+        lits = [n for n in walk_no_nested(f.node) if isinstance(n, ast.Constant) and n.value == marker]
+        if not lits:
+            continue
+        for n in walk_no_nested(f.node):
+            cand = None
+            if isinstance(n, ast.Call) and isinstance(n.func, ast.Attribute) and n.func.attr in ("split", "rsplit", "partition", "endswith", "startswith", "replace") \
+                    and n.args and isinstance(n.args[0], ast.Constant) and isinstance(n.args[0].value, str):
+                cand = n.args[0]
+            elif isinstance(n, ast.Compare) and len(n.ops) == 1 and isinstance(n.ops[0], (ast.In, ast.NotIn)) and isinstance(n.left, ast.Constant) \
+                    and isinstance(n.left.value, str) and isinstance(n.comparators[0], ast.Name):
+                cand = n.left
+            if cand is not None and cand.value != marker and cand.value.startswith("_"):
+                col.violation(f"{f.fq}::{norm(enclosing_stmt(f.module, cand))}",
+                              f"literal {cand.value!r} is used where the sibling sites of this function use the marker {marker!r}: renamed binders are not recognised / not un-mangled",
+                              f.loc(cand))
+
